@@ -41,4 +41,21 @@ theorem JitSeq_prologue (useMbuff updateDataPtr : Bool) : prologueSrc useMbuff u
 
 theorem JitSeq_epilogue (e : Em) : epilogueSrc e = epilogue e := rfl
 
+/-- the byte-level primitives: ModRM and displacement forms, REX prefixes, `emit_load`, `emit_store`, `emit_store_imm32`, direct jumps and the jump record —
+    the shapes are recognised as wholes, the constants (opcode bytes, masks, field positions, the disp8 range) come from the source -/
+theorem JitSeq_prims (e : Em) (modrm r m w x b src dst size code off' : Nat) (d off imm targetPc : Int) :
+    primsSrcOk = true ∧
+    emitModrmSrc e modrm r m = emitModrm e modrm r m ∧ emitModrmAndDisplacementSrc e r m d = emitModrmAndDisplacement e r m d ∧
+    rexWouldSetBitsSrc w src dst = rexWouldSetBits w src dst ∧ emitRexSrc e w r x b = emitRex e w r x b ∧
+    emitBasicRexSrc e w src dst = emitBasicRex e w src dst ∧ emitLoadSrc e size src dst off = emitLoad e size src dst off ∧
+    emitStoreSrc e size src dst off = emitStore e size src dst off ∧ emitStoreImm32Src e size dst off imm = emitStoreImm32 e size dst off imm ∧
+    emitDirectJccSrc e code off' = emitDirectJcc e code off' ∧ emitJumpOffsetSrc e targetPc = emitJumpOffset e targetPc :=
+  ⟨by decide, rfl, rfl, rfl, rfl, rfl, rfl, rfl, rfl, rfl, rfl⟩
+
+/-- `emit_muldivmod`: the flags computed from the opcode, the two early returns (constant divisor 0), the run-time zero test of a register divisor with its
+    fixed-distance jump, the save / load / divide / restore sequence -/
+theorem JitSeq_muldivmod (e : Em) (pc opc src dst : Nat) (imm : Int) : emitMuldivmodSrc e pc opc src dst imm = emitMuldivmod e pc opc src dst imm := by
+  unfold emitMuldivmodSrc emitMuldivmod
+  simp only [and_assoc]
+
 end Rbpf
